@@ -54,7 +54,7 @@ theorem lookup_of_consistent : ∀ (l : List (StateId × LDef)),
 
 theorem lookup_mkIds_inj : ∀ (l : List AccId) (n : Nat) (a a' : AccId) (v : StateId),
     (mkIds l n).lookup a = some v → (mkIds l n).lookup a' = some v → a = a'
-  | [], _, _, _, _, h, _ => by simp [mkIds, List.lookup] at h
+  | [], _, _, _, _, h, _ => by simp [mkIds] at h
   | b :: r, n, a, a', v, h, h' => by
     simp only [mkIds, List.lookup] at h h'
     by_cases hab : a = b
